@@ -78,7 +78,7 @@ CONSUMERS = [
     ("default", 1, "def d{n}(a={V}, *, k={V}):\n  return a\ne{n} = d{n}()\n"),
     ("elem", 1, "l{n} = [{V}, 1]\nd{n} = {{'k': {V}}}\nt{n} = ({V}, 's')\n"),
     ("retval", 0, "def r{n}(c):\n  if c:\n    return {V}\n  return None\ns{n} = r{n}(1)\n"),
-    ("union2", 1, "u{n} = {V} if input() else 1 if input() else 's'\n"),
+    ("union2", 1, "u{n} = {V} if input() == 'y' else 1 if input() == 'y' else 's'\n"),
     ("param", 0, "def p{n}(a):\n  return [a]\nm{n} = p{n}({V})\nn{n} = p{n}(1)\n"),
     ("lambda", 0, "f{n} = lambda: {V}\ng{n} = f{n}()\n"),
     ("tuplekey", 0, "k{n} = {{({V}, 1): 2}}\n"),
